@@ -752,6 +752,18 @@ NextPin:
 			rollback()
 			return fmt.Errorf("Node type must be sent with new edges")
 		}
+
+		// a node must never become its own ancestor
+		cycle, err := sdb.isAncestor(tx, nodeID, parentID, make(map[string]bool))
+		if err != nil {
+			rollback()
+			return err
+		}
+
+		if cycle {
+			rollback()
+			return fmt.Errorf("Error: edge from %v to %v would create a cycle", parentID, nodeID)
+		}
 		// did not find edge, need to add it
 		edge.Up = parentID
 		edge.Down = nodeID
@@ -830,6 +842,51 @@ NextPin:
 	}
 
 	return nil
+}
+
+// isAncestor returns true if ancestorID is id, or is reachable from id by
+// walking edges upwards. Deleted edges are followed as well, as they can be
+// undeleted later.
+func (sdb *DbSqlite) isAncestor(tx *sql.Tx, ancestorID, id string, visited map[string]bool) (bool, error) {
+	if id == ancestorID {
+		return true, nil
+	}
+
+	if visited[id] {
+		return false, nil
+	}
+
+	visited[id] = true
+
+	rows, err := tx.Query("SELECT up FROM edges WHERE down=?", id)
+	if err != nil {
+		return false, err
+	}
+	defer rows.Close()
+
+	var ups []string
+
+	for rows.Next() {
+		var up string
+		err := rows.Scan(&up)
+		if err != nil {
+			return false, err
+		}
+		ups = append(ups, up)
+	}
+
+	if err := rows.Close(); err != nil {
+		return false, err
+	}
+
+	for _, up := range ups {
+		found, err := sdb.isAncestor(tx, ancestorID, up, visited)
+		if err != nil || found {
+			return found, err
+		}
+	}
+
+	return false, nil
 }
 
 func (sdb *DbSqlite) updateHash(tx *sql.Tx, id string, hashUpdate uint32) error {
